@@ -1,3 +1,53 @@
 // Kani harnesses mounted into crates/ripd/src/continuity_seek_index.rs (cfg(kani) only).
 #![allow(unused_imports, dead_code)]
 use super::*;
+
+// C04(b): the seek index lookup equals its specification on every monotonic index: the offset of the LAST entry whose
+// seq <= target, or 0 when there is none (then the reader scans from the start of the sidecar).
+macro_rules! c04_best_offset {
+    ($name:ident, $n:expr) => {
+        #[kani::proof]
+        #[kani::unwind(8)]
+        fn $name() {
+            let seqs: [u64; $n] = kani::any();
+            let offs: [u64; $n] = kani::any();
+            let mut i = 1;
+            while i < $n {
+                kani::assume(seqs[i - 1] < seqs[i]); // index entries are strictly increasing by seq
+                i += 1;
+            }
+            let entries: [SeqSeekIndexEntryV1; $n] = core::array::from_fn(|i| SeqSeekIndexEntryV1::new(seqs[i], offs[i]));
+            let target: u64 = kani::any();
+            let got = best_offset_for_seq(&entries, target);
+            // reference: linear scan
+            let mut want = 0u64;
+            let mut j = 0;
+            while j < $n {
+                if seqs[j] <= target {
+                    want = offs[j];
+                }
+                j += 1;
+            }
+            assert!(got == want, "seek index lookup is not the last entry with seq <= target");
+            kani::cover!($n > 0 && seqs[0] > target, "target before the first entry");
+            kani::cover!($n > 0 && seqs[$n - 1] < target, "target after the last entry");
+        }
+    };
+}
+c04_best_offset!(c04_best_offset_n1, 1);
+c04_best_offset!(c04_best_offset_n2, 2);
+c04_best_offset!(c04_best_offset_n3, 3);
+c04_best_offset!(c04_best_offset_n4, 4);
+c04_best_offset!(c04t_best_offset_n6, 6);
+
+// next_power_of_two_u64 / grow rule of the message-id index (sizing arithmetic of a rebuildable cache)
+#[kani::proof]
+fn c04_msg_index_pow2() {
+    let v: u64 = kani::any();
+    kani::assume(v <= (1u64 << 62));
+    let p = next_power_of_two_u64(v);
+    assert!(p >= v && p >= 1, "capacity below the requested size");
+    assert!(p & (p - 1) == 0, "capacity is not a power of two");
+    assert!(v <= 1 || p / 2 < v, "capacity is not the least power of two");
+    kani::cover!(v > 1 && p == v, "exact power of two");
+}
